@@ -483,3 +483,12 @@ Proof.
     - apply nth_error_None in E. lia. }
   specialize (DN i E). unfold delivered in DN. rewrite (BU NS Li), app_nil_r in DN. auto.
 Qed.
+
+(* the channel is closed only after every member goroutine has completed its send (Done is reported
+   after the send, the closer waits for every Done): nobody ever sends on a closed channel *)
+Theorem never_sends_on_closed_channel : forall cap stop n s i,
+  reachable cap stop n s -> p_closed s = true -> nth_error (p_ms s) i <> Some MSend /\ nth_error (p_ms s) i <> Some MRun.
+Proof.
+  intros cap stop n s i R C. pose proof (inv_closed _ _ _ (reachable_inv _ _ _ _ R) C) as A.
+  split; intros E; pose proof (all_done_nth _ _ _ A E); discriminate.
+Qed.
